@@ -41,6 +41,7 @@ JudgeGob(e) ==
     ELSE IF e.enc2_err # "" \/ e.gob_err # "" THEN "re-encoding / encoding/gob failed: " \o e.enc2_err \o e.gob_err
     ELSE IF e.nodes2 # e.nodes1 THEN "decoded automaton differs (nodes, ids, numWords, links)"
     ELSE IF e.nodes3 # e.nodes1 THEN "automaton decoded through encoding/gob differs"
+    ELSE IF e.dec4_err # "" \/ e.nodes4 # e.nodes1 THEN "decoding into a Dawg that already held another automaton does not replace its contents"
     ELSE IF e.nwords2 # Len(acc) THEN "decoded NumberOfWords differs"
     ELSE IF ~e.same_bytes THEN "encoding the decoded automaton gives different bytes"
     ELSE IF \E k \in 1..Len(e.lookups2) : LET q == e.lookups2[k]  i == IndexOf(q.w) IN (q.ok # (i # 0)) \/ (q.ok /\ q.id # i - 1)
